@@ -42,6 +42,9 @@ SHORT = [
 ]
 
 
+SHRINK_LISTS = ("ops", "setup", "tapes", "actors", "lines", "sends", "scn")
+
+
 def budget(tier):
     return 12000 if tier == "quick" else 3 * G.short_history_count(len(SHORT), 4) + 100_000
 
@@ -149,6 +152,17 @@ def _gen(seed: int, i: int, tier: str) -> dict:
 
 
 def gen(seed: int, i: int, tier: str) -> dict:
+    if i % 16 == 9:
+        # the same promise with the application sending WHILE the release is suspended in a write (fault-free
+        # schedule sub-world shared with C09): what is parked during a release goes out at the next wake
+        from props import c09
+        inner = c09.gen(seed, i, tier)
+        for k in list(inner.get("tapes", {})):
+            if k.startswith("w.fail"):
+                del inner["tapes"][k]
+        if not inner["tapes"].get("w.lat"):
+            inner["tapes"]["w.lat"] = [2, 1, 2]
+        return {"kind": "race", "scn": inner}
     if i % 4 == 3:
         from vsim.universe import gen_universe
         return gen_universe(random.Random(f"U:C07:{seed}:{i}"), tier)
@@ -157,6 +171,20 @@ def gen(seed: int, i: int, tier: str) -> dict:
 
 
 def run(scn):
+    if scn.get("kind") == "race":
+        from props import c09
+        from vsim.core import RunResult
+        inner = c09.run(scn["scn"])
+        res = RunResult()
+        res.digest, res.vt, res.steps, res.ops = inner.digest, inner.vt, inner.steps, inner.ops
+        res.faults.update(inner.faults)
+        res.probes["send_during_release"] += 1
+        if not (inner.faults.get("write_fail_early") or inner.faults.get("write_fail_late")):
+            for v in inner.violations:
+                if v.oracle in ("last-write-is-maximal-send", "not-written-more-often-than-sent"):
+                    res.violate(PROP, "writes.release", f"{v.site}:send-during-release", v.detail)
+        res.nontrivial_key = "C07r:" + inner.digest[:24]
+        return res
     if scn.get("kind") == "universe":
         from vsim.universe import run_universe
         return run_universe(scn, PROP, ASPECTS, keep=None)
